@@ -99,15 +99,30 @@ type c5Run struct {
 // checks who was consulted: the node's own sampler exactly once if the node's level lets
 // the event through, and no sampler otherwise — an event that the level rejects is not
 // part of the population a sampler samples, and must not use up a sampler's state.
+// openVia opens ev on n's logger, sometimes through a variable of the caller that is
+// given another logger right afterwards: an event belongs to the logger it was started
+// on, whatever the variable holds by the time the event is finished.
+func (r *c5Run) openVia(n *c5Node, ev c5Event) *zerolog.Event {
+	if !r.ch.Chance(1, 4) {
+		return r.open(&n.lg, ev)
+	}
+	v := new(zerolog.Logger)
+	*v = n.lg
+	e := r.open(v, ev)
+	*v = r.nodes[r.ch.Intn(len(r.nodes))].lg
+	zsim.Probe("logger_variable_reused")
+	return e
+}
+
 func (r *c5Run) openOn(n *c5Node, ev c5Event) *zerolog.Event {
 	if len(r.stateful) == 0 {
-		return r.open(&n.lg, ev)
+		return r.openVia(n, ev)
 	}
 	before := make([]int, len(r.stateful))
 	for i, s := range r.stateful {
 		before[i] = s.count
 	}
-	e := r.open(&n.lg, ev)
+	e := r.openVia(n, ev)
 	eligible := ev.level >= n.m.level
 	v := -1
 	for i, s := range r.stateful {
@@ -548,6 +563,12 @@ func (r *c5Run) derive(p *c5Node) *c5Node {
 			return r.addNode(p.lg.Sample(st), m, fmt.Sprintf("n%d.Sample(stateful#%d every %d)", p.id, st.id, st.period))
 		}
 		m.samp = nil
+		if ch.Chance(1, 6) {
+			// Sample(nil): the child is not sampled at all, whatever its parent had
+			m.sampler = 0
+			zsim.Probe("sample_nil")
+			return r.addNode(p.lg.Sample(nil), m, fmt.Sprintf("n%d.Sample(nil)", p.id))
+		}
 		m.sampler = 1 + ch.Intn(3)
 		return r.addNode(p.lg.Sample(mkSampler(m.sampler)), m, fmt.Sprintf("n%d.Sample(%d)", p.id, m.sampler))
 	case 3:
